@@ -44,7 +44,7 @@ ASSUMPTIONS = [
 ]
 
 WEIGHTS = {'create': 22, 'add': 26, 'remove': 16, 'delete': 10,
-           'delete_now': 6, 'process': 12, 'clear': 3}
+           'delete_now': 6, 'process': 12, 'clear': 3, 'newclass': 2}
 
 
 def gen_one(rng, tier):
